@@ -462,6 +462,20 @@ def step (d : DState) (line : String) : IO DState := do
       | none => out "bad-op"
     | _, _, _, _, _ => out "bad-op"
     return d
+  | ["dumpopen"] =>
+    let (res, sys') := d.sys.dumpOpen
+    match res with
+    | .ok _ => out "dumpopen ok"
+    | .err k => out s!"dumpopen err {showErr k}"
+    | .panic _ => out "dumpopen panic"
+    return { d with sys := sys' }
+  | ["dumpdrop"] =>
+    out "dumpdrop"
+    return { d with sys := d.sys.dumpDrop }
+  | ["lockrace", _, _, _] =>
+    -- concurrency monitor on the implementation side; the model's verdict is the theorem
+    if d.sys.store.isSome then out "bad-op" else out "lockrace violations=0 []"
+    return d
   | ["name", n] =>
     match n.toNat? with
     | some n => out s!"name {String.ofList (chunkFileName n)}"
